@@ -341,15 +341,21 @@ def gen_fault_case(rng, ncomp=5):
         lines.append("rem 0 #%d" % r)
         del ents[r]
     two = rng.chance(2, 3)
+    ents1 = {}
     if two:
         lines.append("cln 0 1")
+        ents1 = dict(ents)
         for _ in range(rng.below(4)):
             if rng.chance(1, 2):
                 m = rng.choice(shapes)
                 cs = [k for k in range(ncomp) if m >> k & 1]
                 lines.append("ins 1 0 %d %s" % (len(cs), " ".join("%d %d" % (c, fresh()) for c in cs)))
+                ents1[n] = m
+                n += 1
             else:
-                lines.append("rem 1 #%d" % rng.below(n))
+                r = rng.below(n)
+                lines.append("rem 1 #%d" % r)
+                ents1.pop(r, None)
     ws = rng.below(2) if two else 0
     other = 1 - ws
     te = rng.choice(sorted(ents))
@@ -371,6 +377,23 @@ def gen_fault_case(rng, ncomp=5):
     kind, op = rng.choice(cands)
     lines.append("fault %s %d" % (kind, rng.choice([0, 0, 1, 1, 2, 3, 4, 6, 9])))
     lines.append(op)
+    # Probes after the (caught) panic: safe calls through every identifier issued so far, then a clear.  They are
+    # not compared with the model (which has no post-panic state); what they show is memory evidence (ledger,
+    # allocator audit, a process killed by a debug precondition check).
+    opk = op.split()[0]
+    if opk != "drop" and rng.chance(3, 4):
+        pw = int(op.split()[1]) if opk != "srd" else ws
+        if opk == "mde":
+            pw = ws
+        for k in range(n):
+            m = ents.get(k, ents1.get(k))
+            if m is None:
+                continue
+            c = rng.choice([x for x in range(ncomp) if m >> x & 1])
+            lines.append("wrt %d #%d %d %d" % (pw, k, c, fresh()))
+        if rng.chance(1, 2) and n:
+            lines.append("rem %d #%d" % (pw, rng.below(n)))
+        lines.append("clr %d" % pw)
     return lines
 
 
@@ -395,9 +418,9 @@ def alloc_problems(impl_case):
     return probs, leaks
 
 
-# (F8b, a panicking Drop during clear, was repaired by /repo commit f9f2365: no class K17b any more — a fixed entry
-#  suppresses nothing; a destination-only archetype cleared by clone_from goes through the same repaired code)
-K17_CLASSES = {("rem", "drop"): "K17a", ("clf", "clone"): "K17c", ("clf", "drop"): "K17c"}
+# No class is left: F8a (remove), F8b (clear), F8c and F11 (clone_from) were repaired in /repo (2da519c, f9f2365,
+# 342a817, f1ccfcd).  A fixed entry suppresses nothing: whatever a fault case shows now is a violation.
+K17_CLASSES = {}
 
 
 def audited_double_drops(impl_case):
@@ -455,22 +478,18 @@ def oracle_fault_case(impl_case):
         bad.append("a value was dropped twice: " + aud)
     for i, x in probs:
         bad.append("allocator: " + x)
+    # The index structures safe calls go through unchecked (slot -> row, stored identifier -> slot, free list) must
+    # agree with the storage after the panic was caught: `entry`, `remove` and `clear` index with them without a
+    # bounds check, so a disagreement is freed or foreign memory touched "later".  (len() is not memory-relevant
+    # and is not judged here.)
+    if fired and target.get("worlds"):
+        for ws_, w_ in sorted(target["worlds"].items()):
+            for b_ in check_inv(w_):
+                if b_.startswith("len "):
+                    continue
+                bad.append("world %d after the caught panic: %s" % (ws_, b_))
     if bad and fired:
         cls = K17_CLASSES.get((opk, kind))
-        if cls == "K17c":
-            # F8c is about a destination column that is truncated (destination archetype longer than the source's)
-            # or grown (shorter) through the local Vec.  With equal lengths on every shared archetype
-            # World::clone_from is panic-safe: anything seen then is NOT the known class.  (A destination-only
-            # archetype is cleared through Archetype::clear_detached, which is panic-safe since f9f2365.)
-            tt = target["op"].split()
-            before = steps[fi]["worlds"]
-            dstw, srcw = before.get(int(tt[1])), before.get(int(tt[2]))
-            if dstw is not None and srcw is not None:
-                la = {b_: len(r_) for b_, r_ in dstw["archs"]}
-                lb = {b_: len(r_) for b_, r_ in srcw["archs"]}
-                differs = any(la[b_] != lb[b_] for b_ in la if b_ in lb)
-                if not differs:
-                    cls = None
         if cls:
             known.append((fi + 1, cls))
         else:
